@@ -38,7 +38,9 @@ def make_scratch(edits):
         elif path.suffix == ".py":
             (dst / rel).parent.mkdir(parents=True, exist_ok=True)
             shutil.copyfile(path, dst / rel)
-    for rel, old, new in edits:
+    for edit in edits:
+        rel, old, new = edit[:3]
+        at_line = edit[3] if len(edit) > 3 else None
         f = dst / rel
         if not f.exists():
             if old is None:  # new file
@@ -51,10 +53,19 @@ def make_scratch(edits):
             f.write_text(txt + new)
             continue
         if txt.count(old) != 1:
+            if txt.count(old) > 1 and at_line is not None:
+                # a patch hunk: take the occurrence closest to the recorded line
+                starts, i = [], txt.find(old)
+                while i >= 0:
+                    starts.append(i)
+                    i = txt.find(old, i + 1)
+                best = min(starts, key=lambda i: abs(txt.count("\n", 0, i) + 1 - at_line))
+                f.write_text(txt[:best] + new + txt[best + len(old):])
+                continue
             return tmp, f"anchor text occurs {txt.count(old)} times in {rel}"
         f.write_text(txt.replace(old, new))
     # the mutant must still compile
-    for rel, _, _ in edits:
+    for rel in [e[0] for e in edits]:
         try:
             compile((dst / rel).read_text(), str(rel), "exec")
         except SyntaxError as e:
